@@ -64,6 +64,7 @@ type snapshot struct {
 	vals  map[string]object.Object
 	saved map[string]bool // names that have a line in what SaveGlobals writes (not skipped by the limit, not constants)
 	bytes []byte
+	n     int // number of bindings SaveGlobals reports
 }
 
 func snap(s *eval.State, maxLen int) snapshot {
@@ -76,7 +77,7 @@ func snap(s *eval.State, maxLen int) snapshot {
 			sn.vals[n] = o
 		}
 	}
-	sn.bytes, _ = saveBytes(s, maxLen)
+	sn.bytes, sn.n = saveBytes(s, maxLen)
 	for _, l := range splitLines(sn.bytes) {
 		sn.saved[lineName(l)] = true
 	}
@@ -185,6 +186,18 @@ func checkSessions(c *Ctx, sc sessCase) {
 		}
 		out.Reset()
 		prev = snap(s, sc.maxLen)
+		// each saved binding occupies exactly one line of the file
+		if nl := len(splitLines(prev.bytes)); nl != prev.n {
+			cls := "other"
+			for n, o := range prev.vals {
+				if strings.Contains(o.Inspect(), "\n") {
+					cls = strings.ToLower(o.Type().String())
+					_ = n
+					break
+				}
+			}
+			failf(c, "restart:"+sc.kind+":binding-occupies-several-lines:"+cls, rp, fmt.Sprintf("session %d: SaveGlobals wrote %d bindings on %d lines: %q", i+1, prev.n, nl, short(string(prev.bytes))))
+		}
 		if err := repl.AutoSave(s, opts); err != nil {
 			failf(c, "autosave-error", rp, err.Error())
 			return
@@ -364,6 +377,102 @@ func (x *gen) mutationCase() sessCase {
 	return sessCase{kind: m.kind, maxLen: []int{0, 4000}[x.intn(2)], sessions: [][]string{first, {m.run}}, calls: nil}
 }
 
+// ---- functions and lambdas whose bodies hold string literals over the whole byte universe of the data strings
+
+// bodyStr: source text of a string literal for a function body
+func (x *gen) bodyStr() string {
+	switch k := x.intn(10); {
+	case k < 4:
+		// a double quote together with newline / CR / tab / NUL / backslash / backquote / DEL / high bytes
+		comp := []int{'\n', '\r', '\t', 0, '\\', '`', 0x7f, 0x80 + x.intn(128), '\'', 7, 11, 27}
+		var b strings.Builder
+		b.WriteByte('"')
+		n := 2 + x.intn(6)
+		q := x.intn(n)
+		for i := 0; i < n; i++ {
+			ch := 32 + x.intn(95)
+			switch {
+			case i == q:
+				ch = '"'
+			case x.intn(2) == 0:
+				ch = comp[x.intn(len(comp))]
+				if x.intn(3) > 0 {
+					ch = comp[x.intn(2)*2] // newline or tab most of the time
+				}
+			}
+			fmt.Fprintf(&b, "\\x%02x", ch)
+		}
+		b.WriteByte('"')
+		return b.String()
+	case k < 7:
+		return x.str()
+	default:
+		// a raw string in the SOURCE of the function: real newlines, tabs and double quotes between backquotes
+		parts := []string{"line1", "say \"hi\"", "\ttab", "x=\"1\"", "", "a'b", "{\"k\":\"v\"}", "back\\slash", "\r"}
+		n := 1 + x.intn(4)
+		var l []string
+		for i := 0; i < n; i++ {
+			l = append(l, parts[x.intn(len(parts))])
+		}
+		return "`" + strings.Join(l, "\n") + "`"
+	}
+}
+
+// strBody: an expression built around string literals (plain, concatenated, inside nested containers and calls)
+func (x *gen) strBody() string {
+	a, b := x.bodyStr(), x.bodyStr()
+	switch x.intn(9) {
+	case 0:
+		return a
+	case 1:
+		return a + " + " + b
+	case 2:
+		return "[" + a + ", {" + b + ": [" + a + "]}, len(" + b + ")]"
+	case 3:
+		return "if a == nil {" + a + "} else {" + b + "}"
+	case 4:
+		return "sprintf(\"%s|%v\", " + a + ", [" + b + "])"
+	case 5:
+		return "first([" + a + ", " + b + "]) + " + b
+	case 6:
+		return "println(" + a + ")"
+	case 7:
+		return "{\"k\": " + a + "}[\"k\"]"
+	default:
+		return "len(" + a + ") + len(" + b + ")"
+	}
+}
+
+// strFunc: a named function or a lambda with such a body; returns the statement and the global's name
+func (x *gen) strFunc() (string, string) {
+	switch x.intn(4) {
+	case 0:
+		n := x.pickName([]string{"sfn", "msg", "usage"})
+		return "func " + n + "(a) {" + x.strBody() + "}", n
+	case 1:
+		n := x.pickName([]string{"sfn", "msg", "usage"})
+		return "func " + n + "(a) {t = " + x.bodyStr() + "\n" + x.strBody() + "}", n // a real newline in the source between statements
+	case 2:
+		n := x.pickName([]string{"slam", "txt"})
+		return n + " = a => " + x.strBody(), n
+	default:
+		n := x.pickName([]string{"slam", "txt"})
+		return n + " = func(a) {" + x.strBody() + "}", n
+	}
+}
+
+func (x *gen) stringFuncCase() sessCase {
+	var st, calls []string
+	st = append(st, "aa = "+x.str())
+	for i := 0; i < 1+x.intn(3); i++ {
+		s, n := x.strFunc()
+		st = append(st, s)
+		calls = append(calls, n+"(nil)", n+"(\"x\")")
+	}
+	st = append(st, "zz = [1, "+x.str()+"]")
+	return sessCase{kind: "string-literal-in-function", maxLen: []int{0, 4000, 4000}[x.intn(3)], sessions: [][]string{st, {"zz2 = 7"}}, calls: calls}
+}
+
 // sessionCorpus: explicit witnesses, run first
 var sessionCorpus = []sessCase{
 	// a named function much longer than the default limit, bindings before and after it (seeded regression: scanner buffer)
@@ -371,6 +480,9 @@ var sessionCorpus = []sessCase{
 	{"long-line", 4000, [][]string{{"alpha = 1", fnOfLen("poly", 5100), "zeta = [1,2]", "dlo = " + strOfInspectLen(3999), "deq = " + strOfInspectLen(4000), "dhi = " + strOfInspectLen(4001)}}, []string{"poly(2)"}},
 	{"long-line", 0, [][]string{{"alpha = 1", fnOfLen("poly", 70000), "zeta = [1,2]", "big = " + strOfInspectLen(70000)}}, []string{"poly(2)"}},
 	{"long-line", 200, [][]string{{"alpha = 1", fnOfLen("poly", 2000), "zeta = [1,2]", "lam = a => a" + strings.Repeat("+1", 150)}}, []string{"poly(2)"}},
+	// string literals inside function bodies: a double quote together with a newline, tab, NUL, high byte; a raw string
+	{"string-literal-in-function", 4000, [][]string{{"aa = 1", "func usage(who){\"dear \\\"\" + who + \"\\\":\\nsee \\\"help\\\"\\n\"}", "lam = a => [\"q\\\"\\n\\t\\x00\\xff\", {\"k\\\"\\r\": a}]", "zz = 2"}, {"zz = 3"}}, []string{"usage(\"you\")", "lam(1)"}},
+	{"string-literal-in-function", 0, [][]string{{"func raw(a){`say \"hi\"\nsecond \"line\"\ttab`}", "r2 = a => `{\"k\":\n\"v\"}` + a", "zz = 2"}}, []string{"raw(1)", "r2(\"x\")"}},
 	// aliases
 	{"alias-name-redefined", 0, [][]string{{"func f(x){1}", "k = f", "func f(x){2}"}}, []string{"f(0)", "k(0)"}},
 	{"alias-name-redefined", 0, [][]string{{"func f(x){1}", "a = f", "func f(x){2}"}}, []string{"f(0)", "a(0)"}},
@@ -397,6 +509,7 @@ func runSessions(c *Ctx, x *gen) {
 		checkSessions(c, x.longLines())
 		checkSessions(c, x.aliasCase())
 		checkSessions(c, x.mutationCase())
+		checkSessions(c, x.stringFuncCase())
 	}
 	os.Remove(".gr")
 	os.Remove("st.gr")
